@@ -7,7 +7,6 @@ NA = {
  "C01": "Decryption error <= configured bound and exact plaintext position are magnitudes of run-time integers under all radices/precisions; no shape-level necessary condition beyond what C06 (noise/mask call discipline) already decides. Static analysis does not apply.",
  "C03": "Key-switch/automorphism/trace/packing correctness is 'decrypts to the expected image within a noise bound': gadget arithmetic and Galois exponent arithmetic over run-time values; no sound static argument in reach.",
  "C04": "External product / CMux selects m1*m2 within noise: polynomial arithmetic and noise magnitudes, run-time numeric facts.",
- "C05": "Tensor/relinearise/plain/constant multiplication scaling: torus positions from convolution offsets are run-time integer arithmetic.",
  "C07": "DFT/NTT-domain products bit-equal to exact convolution: floating-point error and lazy modular reduction budgets are numeric ranges no structural rule bounds.",
  "C14": "Blind rotation returns the table entry at the mod-switched index: index/drift/sign arithmetic and homomorphic noise.",
  "C15": "End-to-end encrypted integer pipeline (bootstrap, re-preparation, noise growth); its table-function and operation-to-table binding clause is decided under C13, its threading clause under C20.",
@@ -55,6 +54,11 @@ CLAIMS = {
          "DESIGN.md §3 C02 and C09, §8",
          "Trusted: per-limb kernels compute the ring map.",
          "shared limb-coverage / column analysis restricted to the C09 files + sibling verdict comparison", True),
+ "C05": ("other",
+         "Only the split of the convolution offset is decided: each of the seven convolution-based products of poulpy-core (glwe_mul_const[_assign], glwe_mul_plain[_assign], glwe_tensor_apply, glwe_tensor_apply_add_assign, glwe_tensor_square_apply) derives a limb offset `hi` and an intra-limb offset `lo` from `cnv_offset`, hands `hi` to every convolution kernel call and `lo` to every big normalisation of the function, and hi * base2k + lo + base2k == cnv_offset holds on every path for every offset and radix - a piecewise-linear identity decided on the expressions extracted from MIR (path-specific definitions, the path's comparisons as side conditions); squaring, multiplying and the accumulating form derive the split from the same expressions (CNV-2). The CKKS callers' choice of cnv_offset is decided under C16 (CK-9). Convolution kernels, partial-limb masks, relinearisation and noise are not decided.",
+         "DESIGN.md §8 (C05)",
+         "Trusted: cnv_* kernels shift by `hi` limbs and vec_znx_big_normalize by `lo` bits; the `+ base2k` of the law is read off the code (identical in all seven products). Thin, clause-scoped claim.",
+         "path-wise piecewise-linear identity over expressions extracted from MIR + sibling agreement", True),
  "C08": ("other",
          "Only the structure of the carry chains of C08 is decided, on MIR of the normalisation / shift shape functions (small and big accumulators, FFT64 and NTT120 families): the final normalisation step closes a chain (NRM-1); the carry buffer is initialised before a middle / final step reads it on every feasible path, zero-trip loops and single-limb cases included (WR-6); a right shift passes the carry through exactly size(operand) + steps normalisation steps for every operand size, result size and shift - a piecewise-linear identity over the loop trip counts, so that the carry out of the top limb lands on the right limb also when the shift exceeds the precision of the result (NRM-2); every limb of the selected result column is produced and no other column is addressed (WR-1/WR-2 on the C08 files); the AVX step kernels apply the digit / carry helpers per lsh branch as often as their reference twins (BK-6). Digit arithmetic, rounding, balanced digits, cross-radix accumulation and integer encoding / decoding are not decided.",
          "DESIGN.md §8 (C08), §9 rows 17, 20, 53",
